@@ -42,6 +42,8 @@ pub struct HandshakeParts {
     pub rng: Box<dyn Random>,
     /// The handshake cipher object (its key, if any, is already set by the caller).
     pub cipher: Box<dyn Cipher>,
+    /// The key that is installed in `cipher` (all zero if none).
+    pub cipher_key: [u8; CIPHERKEYLEN],
     pub cipher_nonce: u64,
     pub cipher_has_key: bool,
     pub hasher: Box<dyn Hash>,
@@ -106,7 +108,14 @@ pub fn handshake_from_parts(p: HandshakeParts) -> Option<HandshakeState> {
     let cipherstate = CipherState::verif_from_parts(p.cipher, p.cipher_nonce, p.cipher_has_key);
     Some(HandshakeState {
         rng: p.rng,
-        symmetricstate: SymmetricState::verif_from_parts(cipherstate, p.hasher, p.h, p.ck, p.has_key),
+        symmetricstate: SymmetricState::verif_from_parts(
+            cipherstate,
+            p.hasher,
+            p.h,
+            p.ck,
+            p.has_key,
+            p.cipher_key,
+        ),
         cipherstates: CipherStates(CipherState::new(p.cipher_i), CipherState::new(p.cipher_r)),
         s: toggle(p.s, p.s_on),
         e: toggle(p.e, p.e_on),
